@@ -22,6 +22,13 @@ EXTENDS Naturals, Sequences, FiniteSets, TLC
 
 Null == [t |-> "n"]
 
+\* Named deviation (known finding "scalar-list-null-element-error-at-list-path"): the list
+\* marshaller gives the elements of SCALAR / ENUM lists no field context of their own, so a
+\* nil element in a non-null position is reported once, at the LIST's path, instead of once
+\* per nil element at the element's path.  FALSE = the property (the path of the position
+\* that failed); TRUE admits what the tree does, so that the rest of such a trace is checked.
+CONSTANT LeafElemErrAtList
+
 Join(p, seg) == IF p = "" THEN seg ELSE p \o "." \o seg
 
 DfltOut == [k |-> "dflt", n |-> 2, ty |-> "", v |-> ""]
@@ -149,26 +156,55 @@ Complete(C, w0, tname, o, sels, rp, vp) ==
                ew  == Tail(w)
                es  == ElemAll(C, ew, tname, sels, rp, vp, 1, n)
                bad == IsNN(ew) /\ \E i \in 1..n : es[i].isnull
+               leaf == LeafElemErrAtList /\ C.S.types[tname].kind \in {"SCALAR", "ENUM"}
+                       /\ (ew = <<>> \/ ew = <<"N">>)
            IN  [d |-> IF bad THEN Null ELSE [t |-> "l", e |-> ListElems(es, 1)],
-                isnull |-> bad, errs |-> FlatErrs(es, 1), pos |-> UnionPos(es, 1), dinfo |-> UnionDinfo(es, 1)]
+                isnull |-> bad,
+                errs |-> IF leaf THEN (IF bad THEN <<[p |-> rp, c |-> "nonnull"]>> ELSE <<>>) ELSE FlatErrs(es, 1),
+                pos |-> UnionPos(es, 1), dinfo |-> UnionDinfo(es, 1)]
       ELSE LET kind == C.S.types[tname].kind
            IN  IF kind \in {"SCALAR", "ENUM"}
                THEN [d |-> [t |-> ScalarTag(tname),
                             v |-> IF o.k = "val" THEN o.v
                                   ELSE IF C.S.types[tname].dflt # "" THEN C.S.types[tname].dflt ELSE vp],
                      isnull |-> FALSE, errs |-> <<>>, pos |-> {}, dinfo |-> {}]
+               ELSE IF kind # "OBJECT" /\ o.ty = "Rogue"
+               \* the resolver handed back a value that is no type of the schema: type
+               \* resolution fails at this position (a recovered panic in the generated code)
+               THEN [d |-> Null, isnull |-> TRUE, errs |-> <<[p |-> rp, c |-> "panic"]>>, pos |-> {}, dinfo |-> {}]
                ELSE LET ct == IF kind = "OBJECT" THEN tname
                               ELSE IF o.ty # "" THEN o.ty ELSE C.S.types[tname].possible[1]
                     IN  ExecSel(C, ct, sels, rp, vp)
+
+\* What graphql.CollectAllFields(ctx) answers inside the resolver of a field (the API
+\* resolvers use to decide what to preload): "the unique set of all field names requested
+\* regardless of fragment type conditions" - under @skip/@include and the
+\* visited-fragment rule.  Carried in dinfo as records with the reserved label "#cf".
+RECURSIVE AllNamesR(_, _, _)
+AllNamesR(sels, acc, frags) ==
+  IF sels = <<>> THEN acc
+  ELSE LET s    == Head(sels)
+           rest == Tail(sels)
+           inc  == (~s.skip) /\ s.incl
+       IN  IF s.k = "field"
+           THEN AllNamesR(rest, (IF inc THEN [acc EXCEPT !.ns = @ \cup {s.name}] ELSE acc), frags)
+           ELSE IF s.k = "inline"
+           THEN AllNamesR(rest, (IF inc THEN AllNamesR(s.sels, acc, frags) ELSE acc), frags)
+           ELSE IF inc /\ s.name \notin acc.vis
+                THEN AllNamesR(rest, AllNamesR(frags[s.name].sels, [acc EXCEPT !.vis = @ \cup {s.name}], frags), frags)
+                ELSE AllNamesR(rest, acc, frags)
+AllNames(sels, frags) == AllNamesR(sels, [ns |-> {}, vis |-> {}], frags).ns
+CfInfo(rp, sels, frags) == {[p |-> rp, k |-> n, l |-> "#cf"] : n \in AllNames(sels, frags)}
 
 \* The directive chain of a resolver-backed field, outermost first, then the resolver.
 Chain(C, fd, ds, f, rp, vp) ==
   IF ds = <<>>
   THEN LET o == Out(C.plan, rp)
-       IN  IF o.k \in {"err", "valerr"} THEN Fail(rp, "err", TRUE)
-           ELSE IF o.k = "panic" THEN Fail(rp, "panic", TRUE)
-           ELSE LET r == Complete(C, fd.wrap, fd.name, o, f.sels, rp, rp)
-                IN  [r EXCEPT !.pos = @ \cup {rp}]
+           r == IF o.k \in {"err", "valerr"} THEN Fail(rp, "err", TRUE)
+                ELSE IF o.k = "panic" THEN Fail(rp, "panic", TRUE)
+                ELSE LET r0 == Complete(C, fd.wrap, fd.name, o, f.sels, rp, rp)
+                     IN  [r0 EXCEPT !.pos = @ \cup {rp}]
+       IN  [r EXCEPT !.dinfo = @ \cup CfInfo(rp, f.sels, C.frags)]
   ELSE LET key == rp \o "@" \o Head(ds).tag
            how == IF key \in DOMAIN C.dirplan THEN C.dirplan[key] ELSE "pass"
        IN  IF how = "err" THEN Fail(rp, "dir", FALSE)
